@@ -15,11 +15,20 @@ TInit == m = <<>> /\ a = <<>> /\ hist = <<>> /\ l = 1
 
 SeqToSet(s) == {s[i] : i \in 1 .. Len(s)}
 (* the logged projection of the map: size, lookups (pairs <<k, v>> for present keys), iteration *)
+TableOK(f) ==
+    /\ Ev.nb >= 1
+    /\ \A i \in 1 .. Len(Ev.lay) : Ev.lay[i][3] % Ev.nb = Ev.lay[i][2]                     \* RightBucket
+    /\ \A i, j \in 1 .. Len(Ev.lay) : Ev.lay[i][1] = Ev.lay[j][1] => i = j                  \* NoDupKeys
+    /\ {Ev.lay[i][1] : i \in 1 .. Len(Ev.lay)} = DOMAIN f /\ Len(Ev.lay) = Cardinality(DOMAIN f)
 MapStateOK(f) ==
     /\ Ev.size = Cardinality(DOMAIN f)
     /\ SeqToSet(Ev.gets) = {<<k, f[k]>> : k \in DOMAIN f} /\ Len(Ev.gets) = Cardinality(DOMAIN f)
     /\ SeqToSet(Ev.iter) = {<<k, f[k]>> : k \in DOMAIN f}
     /\ Len(Ev.iter) = Cardinality(DOMAIN f)                      \* each entry exactly once
+    /\ TableOK(f)
+(* the hash table as logged (RtMapImpl's structural invariants on the real table): every entry sits in the
+   bucket its cached hash selects, no key twice, as many entries as the abstract map has keys *)
+
 ArrStateOK(s) == Ev.arr = s /\ Ev.len = Len(s)
 
 TReset == IsEvent("reset") /\ m' = <<>> /\ a' = <<>> /\ UNCHANGED hist
